@@ -578,14 +578,16 @@ fn float_special_n<const N: usize>() {
             assert!((nan || rust_nan) == v.is_nan());
             assert!((pinf || rust_pinf) == (*v == f64::INFINITY));
             assert!((ninf || rust_ninf) == (*v == f64::NEG_INFINITY));
-            kani::cover!(N != 5 || ninf, "negative infinity");
-            kani::cover!(nan, "nan");
         }
         Err(_) => {
             assert!(!(nan || pinf || ninf), "documented special float token rejected");
-            kani::cover!(true, "non-float token rejected");
         }
     }
+    // vacuity witnesses, phrased to be satisfiable for every token length N (the documented forms
+    // have 4 or 5 characters)
+    kani::cover!(N > 5 || r.is_ok(), "a special form is accepted");
+    kani::cover!(r.is_err(), "a non-float token is rejected");
+    kani::cover!(N != 5 || ninf, "negative infinity");
     std::mem::forget(r);
 }
 
